@@ -69,6 +69,35 @@ def obs_finite(obs):
 
 # ---- helpers ------------------------------------------------------------------------------------
 
+def worst_conditioning(ops):
+    """max over all intermediate states of a script of (column mean / column std)^2, computed from the
+    case data only.  The code's batch update is, on the first batch of a round (old mean 0), the
+    textbook sum x*(x - mean) form, whose binary64 relative error is about eps * (mean/std)^2: the
+    fixed tolerance 1e-9 is only meaningful while this number stays far below 1e7."""
+    worst = 0.0
+    rows = None
+    for op in ops:
+        if op[0] == 'add':
+            try:
+                M = len(op[1][0]['v'])
+                data = np.hstack([np.array(x['v'], dtype=float).reshape(M, -1) for x in op[1]])
+            except ValueError:
+                continue
+            if rows is not None and rows.shape[1] != data.shape[1]:
+                continue
+            rows = data if rows is None else np.vstack([rows, data])
+            var = rows.var(axis=0)
+            mean = rows.mean(axis=0)
+            for m_, v_ in zip(mean, var):
+                if v_ > 0:
+                    worst = max(worst, m_ * m_ / v_)
+        elif op[0] in ('update', 'init'):
+            rows = None
+    return worst
+
+
+ILL = 1e5
+
 def _must_not_run(*a, **k):
     raise RuntimeError('parent operation must not run: values are supplied')
 
@@ -364,18 +393,24 @@ class C12(PropCheck):
         m, parents = build_parents(case['observed'])
         metric = case['metric']
         name = {'euclidean_w': 'euclidean', 'minkowski_frac': 'minkowski', 'minkowski_w': 'minkowski'}.get(metric, metric)
-        if metric == 'call_vec':
-            d = elfi.Distance(call_cityblock_vec, *parents, name='d')
-        elif metric == 'call_col':
-            d = elfi.Distance(call_euclid_col, *parents, name='d')
-        else:
-            d = elfi.Distance(name, *parents, name='d', **self.real_kwargs(case))
-        vals = {'s%d' % i: dec(s) for i, s in enumerate(case['summaries'])}
+        crash = None
+        res = None
         try:
+            if metric == 'call_vec':
+                d = elfi.Distance(call_cityblock_vec, *parents, name='d')
+            elif metric == 'call_col':
+                d = elfi.Distance(call_euclid_col, *parents, name='d')
+            else:
+                d = elfi.Distance(name, *parents, name='d', **self.real_kwargs(case))
+            vals = {'s%d' % i: dec(s) for i, s in enumerate(case['summaries'])}
             out = d.generate(case['M'], with_values=vals)
             res = enc(out)
         except ValueError as e:
             res = None
+        except Exception as e:          # anything but the documented ValueError
+            crash = '%s: %s' % (type(e).__name__, e)
+        if crash is not None:
+            return dict(out=None, oracle=None, crash=crash)
         oracle = None
         if metric == 'minkowski_frac' and res is not None and case['bad'] is None:
             import scipy.spatial.distance as ssd
@@ -397,6 +432,8 @@ class C12(PropCheck):
             d = elfi.Distance(case['metric'], parents[0], **kw)
         except ValueError:
             return dict(out=None)
+        except Exception as e:
+            return dict(out=None, crash='%s: %s' % (type(e).__name__, e))
         kws = d.state['attr_dict']['_operation'].args[0].keywords
         fn = d.state['attr_dict']['_operation'].args[0].func
         import scipy.spatial.distance
@@ -496,6 +533,8 @@ class C12(PropCheck):
     # ---- python-side clauses -----------------------------------------------------------------------
     def py_check(self, case, out):
         fails = []
+        if out.get('crash'):
+            return [('crash', 'constructing / evaluating the distance node raised ' + out['crash'].split(':')[0])]
         if case['kind'] == 'kw' and out['out'] is not None:
             if not out['is_cdist']:
                 fails.append(('kw_cdist', 'string metric is not evaluated through scipy cdist'))
@@ -516,7 +555,8 @@ class C12(PropCheck):
             fails.append(('nonfinite', 'non-finite state or distance although every column of every round has positive variance'))
         if case['kind'] == 'dist' and not finite(out['out']):
             fails.append(('nonfinite', 'non-finite distance for finite inputs'))
-        if case['kind'] == 'adaptive' and case.get('dataset') and case['bad'] is None and obs_finite(out['obs']):
+        if (case['kind'] == 'adaptive' and case.get('dataset') and case['bad'] is None and obs_finite(out['obs'])
+                and worst_conditioning(case['ops']) <= ILL):
             # every composition of the same data gives the same scale (relative 1e-9) as the first one seen
             last_add = [o for o in out['obs'] if o[0] == 'add'][-1]
             ref = self._part_ref.setdefault(case['dataset'], last_add)
@@ -597,6 +637,8 @@ class C12(PropCheck):
 
     def to_coq(self, case, out):
         kind = case['kind']
+        if out.get('crash'):
+            return None
         if kind == 'dist':
             if not finite(out['out']):
                 return None
@@ -621,6 +663,9 @@ class C12(PropCheck):
             if case['bad'] == 'degenerate':
                 return None
             ops, obs, observed = case['ops'], out['obs'], case['observed']
+        if worst_conditioning(ops) > ILL:
+            self.bump('adaptive:ill_conditioned_skipped')
+            return None
         if not obs_finite(obs) or any(o[0] == 'crash' for o in obs):
             return None
         return ('(CA {| c_observed := %s; c_ops := %s; c_impl := %s |})'
